@@ -945,6 +945,113 @@ fn run_cyclic_table(ops: &[Op]) {
     }
 }
 
+// ---------------------------------------------------------------- serde_roundtrip (C11: the hand-written map (de)serialisers)
+// ops build a CaoHashMap<u64, i64> and a HandleTable<i64> (op % 4: 0, 1 insert key -> value; 2 remove key; 3 round trip now);
+// every round trip (and one at the end) writes both with the format chosen by `variant % 3` (json, cbor, bincode), reads
+// them back and compares with a std HashMap model: same length, same entries, nothing else.
+fn rt<T: serde::Serialize + serde::de::DeserializeOwned>(x: &T, format: u64) -> Result<T, String> {
+    match format % 3 {
+        0 => { let s = serde_json::to_string(x).map_err(|e| format!("json encode: {e}"))?; serde_json::from_str(&s).map_err(|e| format!("json decode: {e}")) }
+        1 => { let mut b = Vec::new(); ciborium::ser::into_writer(x, &mut b).map_err(|e| format!("cbor encode: {e}"))?; ciborium::de::from_reader(&b[..]).map_err(|e| format!("cbor decode: {e}")) }
+        _ => { let b = bincode::serde::encode_to_vec(x, bincode::config::standard()).map_err(|e| format!("bincode encode: {e}"))?; bincode::serde::decode_from_slice(&b, bincode::config::standard()).map(|r| r.0).map_err(|e| format!("bincode decode: {e}")) }
+    }
+}
+
+fn run_serde_roundtrip(ops: &[Op], variant: u64) {
+    let fmt = ["json", "cbor", "bincode"][(variant % 3) as usize];
+    let mut map: CaoHashMap<u64, i64> = CaoHashMap::default();
+    let mut table: HandleTable<i64> = HandleTable::default();
+    let mut model: HashMap<u64, i64> = HashMap::new();
+    // the table's model is keyed by the 32-bit handle itself (two u64 keys may share a handle)
+    let mut tmodel: HashMap<u32, (Handle, i64)> = HashMap::new();
+    // keys spread out so that the decoder's capacity padding and growth are exercised
+    let key = |k: u64| 1 + k * 0x9E37 % 100_003;
+    let mut ops: Vec<Op> = ops.to_vec();
+    ops.push((3, 0, 0));
+    for (step, &(op, k, v)) in ops.iter().enumerate() {
+        let step = step.min(ops.len() - 2);
+        match op % 4 {
+            0 | 1 => {
+                // a burst of keys for every op, so that maps of a few hundred entries are reached
+                for j in 0..(1 + (v.unsigned_abs() % 40)) {
+                    let kk = key(k * 41 + j);
+                    map.insert(kk, v + j as i64).unwrap();
+                    table.insert(Handle::from_u64(kk), v + j as i64).unwrap();
+                    model.insert(kk, v + j as i64);
+                    tmodel.insert(Handle::from_u64(kk).value(), (Handle::from_u64(kk), v + j as i64));
+                }
+            }
+            2 => { let kk = key(k * 41); map.remove(&kk); table.remove(Handle::from_u64(kk)); model.remove(&kk); tmodel.remove(&Handle::from_u64(kk).value()); }
+            _ => {
+                let m2 = match rt(&map, variant) { Ok(m) => m, Err(e) => fail("serde_roundtrip", &ops[..ops.len() - 1], step, format!("CaoHashMap with {} entries does not survive a {fmt} round trip: {e}", model.len())) };
+                if m2.len() != model.len() { fail("serde_roundtrip", &ops[..ops.len() - 1], step, format!("{fmt}: CaoHashMap has {} entries, the decoded one {}", model.len(), m2.len())); }
+                for (k, v) in model.iter() {
+                    if m2.get(k) != Some(v) { fail("serde_roundtrip", &ops[..ops.len() - 1], step, format!("{fmt}: CaoHashMap entry {k} -> {v} reads back as {:?}", m2.get(k))); }
+                }
+                if m2.iter().count() != model.len() { fail("serde_roundtrip", &ops[..ops.len() - 1], step, format!("{fmt}: the decoded CaoHashMap iterates over {} entries, expected {}", m2.iter().count(), model.len())); }
+                let t2 = match rt(&table, variant) { Ok(m) => m, Err(e) => fail("serde_roundtrip", &ops[..ops.len() - 1], step, format!("HandleTable with {} entries does not survive a {fmt} round trip: {e}", tmodel.len())) };
+                if t2.len() != tmodel.len() { fail("serde_roundtrip", &ops[..ops.len() - 1], step, format!("{fmt}: HandleTable has {} entries, the decoded one {}", tmodel.len(), t2.len())); }
+                for (k, (h, v)) in tmodel.iter() {
+                    if t2.get(*h) != Some(v) { fail("serde_roundtrip", &ops[..ops.len() - 1], step, format!("{fmt}: HandleTable entry {k} -> {v} reads back as {:?}", t2.get(*h))); }
+                }
+                if t2.iter().count() != tmodel.len() { fail("serde_roundtrip", &ops[..ops.len() - 1], step, format!("{fmt}: the decoded HandleTable iterates over {} entries, expected {}", t2.iter().count(), tmodel.len())); }
+            }
+        }
+    }
+}
+
+// ---------------------------------------------------------------- native_keys (C02: keys a stdlib native holds across callbacks)
+// std.sorted_by_key / min_by_key / max_by_key with a key function that returns a NEW table per row (its length is the
+// row's value, so the expected outcome is known) and allocates garbage, on a small heap: collections run while the
+// native still holds the keys of earlier rows in a Rust local.  What comes back must be what a run without memory
+// pressure gives.  ops[0] = (kind, rows, heap selector): kind % 3 = 0 sorted_by_key, 1 min_by_key, 2 max_by_key.
+fn run_native_keys(ops: &[Op]) {
+    let kind = ops[0].0 % 3;
+    let n = 5 + (ops[0].1 % 20) as i64;
+    let limit = [24usize, 32, 48, 64][(ops[0].2.unsigned_abs() % 4) as usize] * 1024;
+    let garbage = 100 + (ops[0].2.unsigned_abs() / 4 % 8) as i64 * 50;
+    let fname = ["sorted_by_key", "min_by_key", "max_by_key"][kind as usize];
+    let tbl = || -> Card { CardBody::CreateTable.into() };
+    // t = [n, n-1, .., 1] for sorted / max, [1, .., n] reversed around the middle for min: the extreme is never row 0
+    let vals: Vec<i64> = (0..n).map(|i| if kind == 1 { (i + n / 2) % n + 1 } else { (i + n / 2) % n + 1 }).collect();
+    let arr: Vec<Card> = vals.iter().map(|v| CardBody::ScalarInt(*v).into()).collect();
+    let module = Module {
+        imports: vec![format!("std.{fname}")],
+        functions: vec![
+            ("main".to_string(), Function::default().with_cards(vec![
+                Card::set_var("t", CardBody::Array(arr)),
+                Card::set_global_var("g_result", Card::call_function(fname, vec![CardBody::Function("keyfn".to_string()).into(), Card::read_var("t")])),
+            ])),
+            ("keyfn".to_string(), Function::default().with_arg("_key").with_arg("val").with_cards(vec![
+                Card::set_var("kt", tbl()),
+                Card::repeat(Card::read_var("val"), Some("i".to_string()), Card::set_property(Card::read_var("i"), Card::read_var("kt"), Card::read_var("i"))),
+                Card::repeat(Card::scalar_int(garbage), None, Card::set_var("tmp", tbl())),
+                Card::return_card(Card::read_var("kt")),
+            ])),
+        ],
+        ..Default::default()
+    };
+    let program = compile(module, None).unwrap();
+    let mut vm = Vm::new(()).unwrap().with_max_iter(100_000_000);
+    vm.runtime_data.set_memory_limit(limit);
+    let got: Result<Vec<i64>, String> = (|| {
+        vm.run(&program).map_err(|e| format!("{:?}", e.payload))?;
+        let r = vm.read_var_by_name("g_result", &program.variables).ok_or("no result")?;
+        let t = unsafe { r.as_table() }.ok_or("result is not a table")?;
+        // sorted: the values in order; min / max: the `value` entry of the {key, value} row
+        if kind == 0 { Ok(t.iter().map(|(_, v)| v.as_int().unwrap_or(-1)).collect()) }
+        else { Ok(t.iter().skip(1).take(1).map(|(_, v)| v.as_int().unwrap_or(-1)).collect()) }
+    })();
+    // the key of a row is a table with `val` entries, tables order by length: the expected outcome is known
+    let want: Vec<i64> = match kind { 0 => (1..=n).collect(), 1 => vec![1], _ => vec![n] };
+    match got {
+        Ok(g) if g == want => {}
+        // running out of memory is an allowed outcome of a small heap
+        Err(e) if e.contains("OutOfMemory") => {}
+        other => fail("native_keys", ops, 0, format!("std.{fname} over the rows {vals:?} with a key function that returns a new table of `val` entries (+{garbage} garbage tables per call) on a {limit} byte heap: {:?}, expected {:?}", other, want)),
+    }
+}
+
 fn dispatch(unit: &str, ops: &[Op], variant: u64) {
     VARIANT.store(variant, std::sync::atomic::Ordering::Relaxed);
     match unit {
@@ -961,6 +1068,8 @@ fn dispatch(unit: &str, ops: &[Op], variant: u64) {
         "closure_capture" => run_closure_capture(ops),
         "gc_roots" => run_gc_roots(ops),
         "cyclic_table" => run_cyclic_table(ops),
+        "native_keys" => run_native_keys(ops),
+        "serde_roundtrip" => run_serde_roundtrip(ops, variant),
         _ => { eprintln!("unknown unit {unit}"); std::process::exit(2); }
     }
 }
